@@ -463,6 +463,8 @@ def _job(arg):
 
 
 def run(ctx):
+    from vf.gen import registry as _registry  # pylint: disable=import-outside-toplevel
+    _registry.warm()
     base_n = 128 if ctx.quick else 1024
     shards = 48
     per_class = 6 if ctx.quick else 60
